@@ -62,7 +62,8 @@ def expect_add(mat, s1, s2):
         return None
     out = []
     for a, b in zip(s1, s2):
-        da, db = den(a, mat), den(b, mat)
+        # constraints may spell the fourth base either way (T or U); the RESULT is spelled in the material's alphabet
+        da, db = den('T' if a == 'U' else a, 'DNA'), den('T' if b == 'U' else b, 'DNA')
         if da is None or db is None:
             return None
         i = da & db
@@ -108,9 +109,13 @@ def gen_ops(res, rng, tier):
                 ops.append(('iupac.map', fn, mat, c))
             ops.append(('iupac.map', fn, mat, ''))
             ops.append(('iupac.map', fn, mat, ''.join(cs)))
-        for a in cs:
-            for b in cs:
+        both = cs + [x for x in 'TU' if x not in cs]
+        for a in both:
+            for b in both:
                 ops.append(('iupac.add', mat, a, b))
+        for q in ('ACGT', 'ACGU', 'TTUU', 'NTUN', 'UT'):          # equal operands, operands that differ only in the spelling of T / U
+            ops.append(('iupac.add', mat, q, q))
+            ops.append(('iupac.add', mat, q, q.replace('T', 'u').replace('U', 'T').replace('u', 'U')))
         ops.append(('iupac.add', mat, '', ''))
         ops.append(('iupac.add', mat, 'A', 'AA'))
         ops.append(('iupac.add', mat, 'AX', 'AA'))
@@ -145,6 +150,10 @@ def gen_ops(res, rng, tier):
             ops.append(('iupac.map', rng.choice(list(FN)), mat, s))
         else:
             s1, s2 = rs(), rs()
+            if rng.random() < 0.15:
+                s2 = s1; res.count('equal_operands')
+            if rng.random() < 0.15:                        # the other alphabet's spelling of the fourth base
+                s1 = s1.replace('T', 'U') if mat == 'DNA' else s1.replace('U', 'T'); res.count('other_alphabet_operand')
             if rng.random() < 0.03:
                 s2 = s2[:-1]; res.count('unequal_len')
             ops.append(('iupac.add', mat, s1, s2))
@@ -210,14 +219,58 @@ def run(res, proof):
                             key = 'add_constraints:returns-none' if o1 == 'none' else 'add_constraints:%s:%s:%s' % (mat, a, b)
                             break
                 res.violation(key, {'op': list(op)}, out, exp)
+    reader_use(res, rng)
     for op in ops[::max(1, len(ops) // 10)]:
         res.sample('\t'.join(op))
+
+
+def reader_use(res, rng):
+    """the use by the reader (objectio.py): the complement of a sequenced domain carries reverse_wc_complement(sequence)"""
+    import gc
+    from dsdobjects import objectio, clear_singletons
+    from dsdobjects.base_classes import DomainS
+    seqs = ['NNNNS', 'SW', 'WS', 'SSW', 'NSN', 'NNS', 'ACGT', 'AACG', 'RYKM', 'BDHV', 'SWNNB', 'A', 'S', 'NW', 'GATTACA']
+    cs = codes('DNA')
+    for _ in range(25):
+        seqs.append(''.join(rng.choice(cs) for _ in range(rng.randint(2, 9))))
+        seqs.append(''.join(rng.choice('SWN') for _ in range(rng.randint(2, 6))))
+    objectio.set_io_objects()
+    for q in seqs:
+        for name in ('x', 'x*'):
+            clear_singletons(DomainS)
+            res.evaluations += 1
+            try:
+                out = objectio.read_pil('sequence %s = %s\n' % (name, q))
+                other = name[:-1] if name.endswith('*') else name + '*'
+                got = out['domains'][other].sequence
+                own = out['domains'][name].sequence
+                del out
+            except Exception as e:
+                res.violation('reader:sequence:raises:' + type(e).__name__, {'op': ['read_pil', 'sequence %s = %s' % (name, q)]}, type(e).__name__, 'the two domains'); e = None
+                continue
+            want = expect_map('rwc', 'DNA', q)
+            res.count('reader_complement_sequences')
+            if got != want or own != q:
+                res.violation('reader:complement-sequence:' + q[:6], {'op': ['read_pil', 'sequence %s = %s' % (name, q)]},
+                              '%s.sequence = %r, %s.sequence = %r' % (name, own, other, got), 'the declared sequence and its reverse Watson-Crick complement %r' % want)
+    clear_singletons(DomainS)
+    gc.collect()
 
 
 def replay(body, repo):
     from dsdobjects import iupac_utils as iu
     v = body
     op = tuple(v['input']['op'])
+    if op[0] == 'read_pil':
+        from dsdobjects import objectio
+        objectio.set_io_objects()
+        try:
+            d = objectio.read_pil(op[1] + '\n')['domains']
+            out = ', '.join('%s.sequence = %r' % (k, d[k].sequence) for k in sorted(d))
+        except Exception as e:
+            out = 'err ' + type(e).__name__
+        print('op       :', op); print('observed :', out); print('required :', v.get('required'))
+        return 1
     out = impl_op(iu, op)
     print('op       :', op)
     print('observed :', out)
